@@ -16,10 +16,15 @@ for d in sorted(glob.glob(V + '/seeded/*/')):
     fp = f'{V}/selftest/{prop}.json'
     v = json.load(open(fp))
     pth = f"seeded/{kid}/patch.diff"
-    if any(x.get('patch') == pth for x in v):
+    mention = rules[0] if len(rules) == 1 else ""
+    ex = [x for x in v if x.get('patch') == pth and x['name'].startswith('seeded ')]
+    if ex:
+        if ex[0].get('mention', '') != mention:
+            ex[0]['mention'] = mention
+            json.dump(v, open(fp, 'w'), indent=1)
         continue
     v.append({"property": prop, "name": f"seeded {kid}: {m.get('title', '')}"[:160], "expect": "fire",
-              "mention": rules[0] if len(rules) == 1 else "", "patch": pth})
+              "mention": mention, "patch": pth})
     json.dump(v, open(fp, 'w'), indent=1)
     added += 1
 print("added", added)
